@@ -46,8 +46,10 @@ type Node struct {
 	CommitErrAt map[uint64]bool
 	// blocking SPI: heights at which RequestNewBlockProposal / ValidateBlockProposal wait for their context
 	BlockReq, BlockVal map[uint64]bool
+	HoldVal            map[uint64]chan struct{} // ValidateBlockProposal of that height waits until the harness closes the channel (a slow consumer that ignores its context)
 	BlockCommittee     map[uint64]bool // heights whose RequestOrderedCommittee fails for as long as its context lives
 	SpiCalls []*SpiCall
+	spiHold  chan struct{}
 }
 
 type SpiCall struct {
@@ -89,7 +91,11 @@ func newNode(x *X, idx int) *Node {
 	}
 	n.BU = &kit.BlockUtils{Me: id}
 	n.BU.ReqGate = func(ctx context.Context, h primitives.BlockHeight) { n.spi("request", uint64(h), ctx, n.BlockReq[uint64(h)]) }
-	n.BU.ValGate = func(ctx context.Context, h primitives.BlockHeight) { n.spi("validate", uint64(h), ctx, n.BlockVal[uint64(h)]) }
+	n.HoldVal = map[uint64]chan struct{}{}
+	n.BU.ValGate = func(ctx context.Context, h primitives.BlockHeight) {
+		n.spiHold = n.HoldVal[uint64(h)]
+		n.spi("validate", uint64(h), ctx, n.BlockVal[uint64(h)])
+	}
 	n.Comm.Hook = func(o kit.Out) {
 		i := ref.Parse(o.Msg)
 		n.mu.Lock()
@@ -110,6 +116,11 @@ func (n *Node) spi(kind string, h uint64, ctx context.Context, block bool) {
 	n.ev("spi-%s(h%d) enter ctxerr=%v", kind, h, ctx.Err() != nil)
 	if ctx.Err() != nil {
 		n.x.Bad("C15", "spi-called-with-cancelled-context", "%s for height %d was started with an already cancelled context", kind, h)
+	}
+	if hold := n.spiHold; hold != nil { // a slow consumer that ignores its context until the harness lets it go
+		n.spiHold = nil
+		vs.Recv(hold)
+		<-hold
 	}
 	if block {
 		d := ctx.Done()
